@@ -24,7 +24,7 @@ SPEC = {
              "quantifier; distinct = that signature; non-trivial = every case (n >= 2 unknowns)"),
     "boundscheck": {"quick": False, "thorough": False},
     "case_timeout": 400.0,
-    "deciding_monitors": ["run:LinearLeastSquares"],
+    "deciding_monitors": ["run:LinearLeastSquares", "in:layout:strided", "in:readonly"],
     "assumptions": ["generated problems have cond(A^H A + lamda I (+ rho G^H G)) <= 1e2 so that "
                     "the stated iteration budgets reach the stated objective tolerance",
                     "box constraints only without G (g(Gx) needs feasibility of G x)"],
